@@ -100,7 +100,7 @@ def _reduced_items(seed):
     return out
 
 
-LAYOUTS = ["same_block", "two_blocks", "comment_between", "second_under_h1", "deep", "bodyless_between"]
+LAYOUTS = ["same_block", "two_blocks", "comment_between", "second_under_h1", "deep", "bodyless_between", "h2_first"]
 LONG_LAYOUT = "long_page"
 
 
@@ -159,6 +159,13 @@ def _page_multi(seed, layout, specs):
     elif layout == "second_under_h1":
         page.top_blocks = [[items[0]]]
         page.sections = [M.ASection(1, [M.W("Sec"), M.W("x")], [items[1:]], gap_after_header=0)]
+    elif layout == "h2_first":
+        # the body opens directly with an H2 section (no loose item, no H1 above it);
+        # an H3 below it; an H1 only afterwards
+        secs = [M.ASection(2, [M.W("Lead")], [[items[0]]]), M.ASection(3, [M.W("Sub")], [[items[1]]])]
+        if len(items) > 2:
+            secs.append(M.ASection(1, [M.W("Late")], [items[2:]]))
+        page.sections = secs
     elif layout == "deep":
         page.top_blocks = [[items[0]]]
         secs = [M.ASection(lv, [M.W(f"L{lv}")], []) for lv in (1, 2, 3, 4)]
